@@ -104,4 +104,23 @@ Proof.
   all: cbn [rt_ok pid1]; unfold pid_ok, atom_ok, loc_modern; cbn [pnode ploc]; c_conj; try exact I; try c_nle.
 Qed.
 
+(* the receive path of a connection whose read half was taken (receive_message_from_read_half, the node's receiver
+   task): on ticks and pass-through frames it does what receive_message does — so it delivers what the peer encoded —
+   and any other frame is an error of that frame alone (the path keeps no state between frames) *)
+Theorem C06_read_half_agrees : forall cfg st rest,
+  handle_frame_half cfg (pass_through :: rest) = snd (handle_frame cfg st (pass_through :: rest)) /\
+  handle_frame_half cfg [] = OContinue.
+Proof. intros cfg st rest. split; [apply half_agrees_on_pass_through|apply half_tick]. Qed.
+
+Theorem C06_read_half_delivery : forall cfg, d_arms cfg = owned_arms ->
+  forall ctl msg, wf ctl = true -> rt_ok (d_kcmp cfg) (d_kinsert cfg) ctl ->
+  wf msg = true -> rt_ok (d_kcmp cfg) (d_kinsert cfg) msg ->
+  exists bc bm, encode ctl = EOk bc /\ encode msg = EOk bm /\
+    handle_frame_half cfg (pass_through :: bc ++ bm) = to_outcome (norm ctl) (Some (norm msg)) /\
+    handle_frame_half cfg (pass_through :: bc) = to_outcome (norm ctl) None.
+Proof. exact half_delivery. Qed.
+
+Theorem C06_read_half_other_frames : forall cfg b0 rest, b0 <> pass_through -> handle_frame_half cfg (b0 :: rest) = OError.
+Proof. exact half_other_is_error. Qed.
+
 Check C06_exactly_once_in_order.
